@@ -292,11 +292,21 @@ func newInst(kind string, id int) instance {
 	return newRomInst(id)
 }
 
+// an operation of the library that panics is an observation like any other (digest -1), not a harness failure
+func safeOp(x instance, k int) (d int) {
+	defer func() {
+		if r := recover(); r != nil {
+			d = -1
+		}
+	}()
+	return x.op(k)
+}
+
 func soloRunHere(kind string, id int) []int {
 	x := newInst(kind, id)
 	out := make([]int, x.nops())
 	for k := range out {
-		out[k] = x.op(k)
+		out[k] = safeOp(x, k)
 	}
 	x.release()
 	return out
@@ -376,7 +386,7 @@ func init() {
 				}
 				for _, i := range sc {
 					for b := 0; b < burst && seq[i] < insts[i].nops(); b++ {
-						got := insts[i].op(seq[i])
+						got := safeOp(insts[i], seq[i])
 						key := fmt.Sprint(as[i-1], i+3*(run%5))
 						emit(map[string]interface{}{"k": "obs", "run": run, "kind": as[i-1], "inst": i, "seq": seq[i] + 1,
 							"solo": solo[key][seq[i]], "got": got, "mode": "sched"})
@@ -421,7 +431,7 @@ func init() {
 					for rep := 0; rep < 3; rep++ {
 						x := newInst(j.kind, j.id)
 						for k := 0; k < x.nops(); k++ {
-							got := x.op(k)
+							got := safeOp(x, k)
 							emit(map[string]interface{}{"k": "obs", "run": gi*10 + rep, "kind": j.kind, "inst": j.id, "seq": k + 1,
 								"solo": j.solo[k], "got": got, "mode": "free"})
 						}
